@@ -113,6 +113,8 @@ class Report:
         knownset = {(k["property"], k["rule"], k["function"], k["construct"])
                     for k in known if k.get("status") == "known"}
         broken = ["self-test variant behaves unexpectedly: " + b for b in bad_selftest]
+        # constructs a rule could not analyse: reported as analysis-broken unless a concrete finding exists
+        broken += list(getattr(self, "deferred_broken", []))
         for r in self.rules:
             if len(r.instances) < r.floor:
                 broken.append("rule %s matched %d instance(s), below the floor of %d confirmed by hand"
